@@ -176,6 +176,9 @@ def run(P, R, tier):
                 R.anchor_missing("C16.formula", "case %d: no lg assignment that is a rational expression (%s)" % (v, err))
                 continue
             bad = [(w, got) for w, got in nonconst if not got.same(want)]
+            if bad and RF.unknown_reference_symbols(want, g["body"]):
+                R.anchor_missing("C16.formula", "case %d: the reference formula names %s which no longer occur in gammas (renamed?)" % (v, RF.unknown_reference_symbols(want, g["body"])))
+                continue
             if bad:
                 w, got = bad[0]
                 R.violation("C16.formula", "case %d (%s)" % (v, name), "lg = %s is not the defining equation %s of the %s model" % (T.text(w[4])[:160], ref.replace("muhalf^2", "I").replace("muhalf", "sqrt(I)"), name),
